@@ -553,7 +553,7 @@ def gen(ctx, emit):
     known_fp = json.loads(FINGERPRINT_FILE.read_text()) if FINGERPRINT_FILE.exists() else {}
     changed = sorted(a for a in ANCHORS if known_fp.get(a) != fp[a])
     ctx.extra_cov["source_fingerprint"] = fp
-    if changed and not ctx.thorough:
+    if changed and not ctx.thorough and os.environ.get("VERIF_ESCALATE") != "1":   # (lib.Ctx.n escalates by itself then)
         ctx.note("source fingerprint changed for %s: quick budgets raised x6 for this run" % ", ".join(changed))
         _n = ctx.n
         ctx.n = lambda q, t: _n(q * 6, t)
